@@ -733,6 +733,18 @@ func newDBM(g *Graph, f Facts, assumed []assumedFact) *dbm {
 			}
 		}
 	}
+	// x ≡ y (x is a copy of the slice / map header y, neither reassigned since): same length
+	for atom, v := range f.m {
+		if !v || !strings.Contains(atom, " ≡ ") {
+			continue
+		}
+		parts := strings.SplitN(atom, " ≡ ", 2)
+		lx, ly := "len("+parts[0]+")", "len("+parts[1]+")"
+		d.addLE(lx, 0, ly, 0)
+		d.addLE(ly, 0, lx, 0)
+		d.addLE(zeroNode, 0, lx, 0)
+		d.addLE(zeroNode, 0, ly, 0)
+	}
 	for _, a := range assumed {
 		d.addLE(a.a, a.ak, a.b, a.bk)
 	}
